@@ -36,7 +36,44 @@ func cloneScenario(s *gen.Scenario) (*gen.Scenario, error) {
 // identify the contact(s): same scheme, same query (channel affinity, id, priority), same country for tel.
 
 // rot is a bijective re-lettering of a URN: digits are rotated by d, ASCII letters by l. {0,0} = identity.
-type rot struct{ d, l int }
+//
+// ad / al (both 0 = off) make the re-lettering depend on the POSITION of a URN: the k-th repetition (k >= 1) of one
+// identity (scheme + path) inside one contact's URN list is re-lettered by occ(k), a different rotation. A twin made
+// that way has distinct URNs where its sibling has the same URN twice — the twins still differ only in URN paths and
+// displays, and which of a contact's URNs have equal paths is part of the identifying information the policy hides.
+type rot struct{ d, l, ad, al int }
+
+// occ is the re-lettering of the k-th repetition of a URN within one list.
+func (ro rot) occ(k int) rot {
+	if k == 0 || (ro.ad == 0 && ro.al == 0) || ro.identity() {
+		return rot{d: ro.d, l: ro.l}
+	}
+	return rot{d: 1 + (ro.d-1+k*ro.ad)%9, l: 1 + (ro.l-1+k*ro.al)%25}
+}
+
+// urnIdentity is the monitor's own reading of what makes two URNs "the same URN": scheme and path, letter case
+// ignored, query (channel, id, priority) and display not counted.
+func urnIdentity(u string) string {
+	scheme, path, _, _, ok := splitURN(u)
+	if !ok {
+		return strings.ToLower(u)
+	}
+	return strings.ToLower(scheme + ":" + path)
+}
+
+// repeatedIdentities counts the entries of a URN list that repeat the identity of an earlier entry.
+func repeatedIdentities(list []string) int {
+	seen := map[string]bool{}
+	n := 0
+	for _, u := range list {
+		id := urnIdentity(u)
+		if seen[id] {
+			n++
+		}
+		seen[id] = true
+	}
+	return n
+}
 
 func (ro rot) identity() bool { return ro.d%10 == 0 && ro.l%26 == 0 }
 
@@ -126,35 +163,84 @@ func maskURN(u string) string {
 // (msg.urn, call.urn) and the elements of "urns" arrays (contact.urns, run_summary.contact.urns,
 // refreshed contacts).
 func mapURNs(v any, f func(string) string) any {
+	return mapURNsOcc(v, func(u string, occ int) string { return f(u) })
+}
+
+// mapURNsOcc is mapURNs for position-dependent rewritings: f is also told how many earlier elements of the same
+// "urns" array have the same identity (0 for the first occurrence and for "urn" values).
+func mapURNsOcc(v any, f func(u string, occ int) string) any {
 	switch t := v.(type) {
 	case map[string]any:
 		for k, val := range t {
 			switch {
 			case k == "urn":
 				if s, ok := val.(string); ok {
-					t[k] = f(s)
+					t[k] = f(s, 0)
 					continue
 				}
 			case k == "urns":
 				if arr, ok := val.([]any); ok {
+					seen := map[string]int{}
 					for i, e := range arr {
 						if s, ok := e.(string); ok {
-							arr[i] = f(s)
+							id := urnIdentity(s)
+							arr[i] = f(s, seen[id])
+							seen[id]++
 						}
 					}
 					continue
 				}
 			}
-			t[k] = mapURNs(val, f)
+			t[k] = mapURNsOcc(val, f)
 		}
 		return t
 	case []any:
 		for i := range t {
-			t[i] = mapURNs(t[i], f)
+			t[i] = mapURNsOcc(t[i], f)
 		}
 		return t
 	}
 	return v
+}
+
+// urnLists returns every contact URN list of a (cloned) scenario: trigger contact, parent run summary contact,
+// refreshed contacts of the resumes.
+func urnLists(s *gen.Scenario) []map[string]any {
+	var out []map[string]any
+	add := func(v any) {
+		if c, ok := v.(map[string]any); ok {
+			if us, ok := c["urns"].([]any); ok && len(us) > 0 {
+				out = append(out, c)
+			}
+		}
+	}
+	add(s.Trigger["contact"])
+	if rs, ok := s.Trigger["run_summary"].(map[string]any); ok {
+		add(rs["contact"])
+	}
+	for _, m := range s.Resumes {
+		add(m["contact"])
+	}
+	return out
+}
+
+func stringsOf(arr []any) []string {
+	var out []string
+	for _, e := range arr {
+		if s, ok := e.(string); ok {
+			out = append(out, s)
+		}
+	}
+	return out
+}
+
+// scenarioRepeats: how many URN list entries of the scenario repeat an earlier entry of their list.
+func scenarioRepeats(s *gen.Scenario) int {
+	n := 0
+	for _, c := range urnLists(s) {
+		n += repeatedIdentities(stringsOf(c["urns"].([]any)))
+	}
+	return n
 }
 
 // collectStrings gathers every string of a JSON value except contact-identifying URNs.
@@ -253,6 +339,15 @@ func needles(u string) []string {
 // rotUsable: the re-lettered URNs are still valid where the originals were, tel URNs stay in the same country,
 // and no path collides with a literal of the scenario.
 func rotUsable(ro rot, all []string, corpus string) bool {
+	if ro.ad != 0 || ro.al != 0 {
+		// every rotation the position-dependent re-lettering may use
+		for k := 0; k <= 3; k++ {
+			if !rotUsable(ro.occ(k), all, corpus) {
+				return false
+			}
+		}
+		return true
+	}
 	for _, u := range all {
 		nu := ro.urn(u)
 		if urns.URN(u).Validate() == nil && urns.URN(nu).Validate() != nil {
@@ -292,10 +387,16 @@ func pickRots(r *fw.Rand, base *gen.Scenario) (a, b rot, ok bool) {
 			return a, b, false
 		}
 	}
+	// a contact list that holds one URN more than once: twin A keeps the repetition (a rotation maps equal to equal),
+	// twin B gets distinct URNs at those positions (extra draws only then, so that all other cases stay as they were)
+	spread := scenarioRepeats(base) > 0
 	for try := 0; try < 40; try++ {
 		c := rot{d: r.Range(1, 9), l: r.Range(1, 25)}
 		if c.d == a.d || c.l == a.l {
 			continue
+		}
+		if spread {
+			c.ad, c.al = r.Range(1, 8), r.Range(1, 24)
 		}
 		if rotUsable(c, all, corpus) {
 			return a, c, true
@@ -311,9 +412,10 @@ func twinOf(base *gen.Scenario, ro rot, policy string) *gen.Scenario {
 	if err != nil {
 		panic(err)
 	}
-	mapURNs(map[string]any(t.Trigger), ro.urn)
+	f := func(u string, occ int) string { return ro.occ(occ).urn(u) }
+	mapURNsOcc(map[string]any(t.Trigger), f)
 	for _, m := range t.Resumes {
-		mapURNs(map[string]any(m), ro.urn)
+		mapURNsOcc(map[string]any(m), f)
 	}
 	if policy != "" {
 		setPolicy(t, policy)
